@@ -246,6 +246,54 @@ func (s *Spec) govOps(st *explore.State) []explore.Op {
 			}})
 		}
 	}
+	if n <= 2 {
+		// text proposals with every shape of tally the end-blocker has to survive: nobody votes, everybody abstains,
+		// all no, all veto, a weighted split, one validator yes and the other abstaining
+		type ballot struct {
+			who int
+			opt govv1.WeightedVoteOptions
+		}
+		one := func(o govv1.VoteOption) govv1.WeightedVoteOptions { return govv1.NewNonSplitVoteOption(o) }
+		split := govv1.WeightedVoteOptions{
+			{Option: govv1.OptionYes, Weight: "0.25"}, {Option: govv1.OptionAbstain, Weight: "0.25"},
+			{Option: govv1.OptionNo, Weight: "0.25"}, {Option: govv1.OptionNoWithVeto, Weight: "0.25"},
+		}
+		profiles := []struct {
+			name    string
+			ballots []ballot
+		}{
+			{"nobody", nil},
+			{"all-abstain", []ballot{{0, one(govv1.OptionAbstain)}, {1, one(govv1.OptionAbstain)}}},
+			{"all-no", []ballot{{0, one(govv1.OptionNo)}, {1, one(govv1.OptionNo)}}},
+			{"all-veto", []ballot{{0, one(govv1.OptionNoWithVeto)}, {1, one(govv1.OptionNoWithVeto)}}},
+			{"split", []ballot{{0, split}, {1, split}}},
+			{"yes+abstain", []ballot{{0, one(govv1.OptionYes)}, {1, one(govv1.OptionAbstain)}}},
+			{"abstain-only-one", []ballot{{0, one(govv1.OptionAbstain)}}},
+		}
+		for _, pf := range profiles {
+			pf := pf
+			ops = append(ops, explore.Op{Name: "GovBallots(" + pf.name + ")", Run: func(c *explore.State) {
+				sub := &govv1.MsgSubmitProposal{InitialDeposit: sdk.NewCoins(world.FXCoin(10000)), Proposer: s.w.A("u1").Bech(), Title: "t", Summary: "s", Metadata: "m"}
+				if r := s.w.Deliver(c.Ctx, sub); !r.OK() {
+					c.Outcome = "submit-rejected"
+					return
+				}
+				id, _ := gk.ProposalID.Peek(c.Ctx)
+				id--
+				for _, b := range pf.ballots {
+					if b.who >= len(s.w.Vals) {
+						continue
+					}
+					if vr := s.w.Deliver(c.Ctx, govv1.NewMsgVoteWeighted(s.w.Vals[b.who].Operator.Acc(), id, b.opt, "")); !vr.OK() {
+						c.Outcome = "vote-rejected"
+						return
+					}
+				}
+				c.Accepted = true
+				c.Outcome = "ok"
+			}})
+		}
+	}
 	if n > 1 {
 		ops = append(ops, s.blockOp("Jump15d", 15*24*time.Hour))
 	}
